@@ -443,6 +443,42 @@ def run(ctx: Ctx, rs: RuleSet, tier: str):
            for c in ctx.calls(tvf))
   rs.check(ok, rule, tvf.qualname, 'every given tag is attached to `value`',
            ctx.loc(tvf, tvf.node))
+  # wherever a tagged-value node is made with a value in hand, the value may
+  # itself be a TaggedValue whose tags the constructor / assignment has just
+  # merged into the node: tags given afterwards are added to that set, never
+  # put in its place (set_tags / clear_tags / a store of a new set)
+  rule = 'SHAPE.tagged-value-tags-accumulate'
+  rs.declare(rule, 'a tagged-value node under construction has its tags '
+             'added, not replaced', 1)
+  REPLACERS = {f'{T}.set_tags', f'{T}.clear_tags'}
+  for h in list(p.funcs.values()):
+    if h.is_lambda or h.module.name.endswith('_test') or h.qualname in REPLACERS:
+      continue
+    made = [c for c in ctx.calls(h) if (p.resolve(c.func, h) or '').endswith(
+        'config.TaggedValueCls') or unparse(c.func).endswith('TaggedValueCls')]
+    if not made:
+      continue
+    names = roles.assigned_from(h, lambda e: e in made)
+    bad = []
+    for c in ctx.calls(h):
+      tgt = p.resolve(c.func, h)
+      if tgt in REPLACERS and c.args and (
+          unparse(c.args[0]) in names or roles.deref(h, c.args[0]) in made):
+        bad.append(c)
+      if isinstance(c.func, ast.Attribute) and c.func.attr in (
+          'clear', 'difference_update', 'intersection_update', 'discard',
+          'remove', 'pop') and '__argument_tags__' in unparse(
+              roles.deref(h, c.func.value)) and any(
+                  unparse(roles.deref(h, c.func.value)).startswith(n + '.')
+                  for n in names):
+        bad.append(c)
+    rs.check(not bad, rule, f'{h.qualname}:tags',
+             'tags are attached with add_tag / merged' if not bad else
+             f'`{unparse(bad[0])[:80]}` replaces the tag set of the node just '
+             'built: tags contributed by a TaggedValue passed as its value '
+             '(Tag.new(...) wrapped again) are lost, so tag-directed '
+             'assignment and list_tags no longer see them',
+             ctx.loc(h, bad[0] if bad else h.node))
 
 
 MANIFEST = dict(
